@@ -62,7 +62,7 @@ public:
 public:
   static String unescapeString(const String& str);
   static String escapeString(const String& str);
-  static String escapeStrings[5];
+  static String escapeStrings[7];
   static const char* escapeChars;
 };
 
@@ -70,8 +70,8 @@ class Xml::Parser::Private : public Xml::Private
 {
 };
 
-const char* Xml::Private::escapeChars = "'\"&<>";
-String Xml::Private::escapeStrings[5] = {String("apos"), String("quot"), String("amp"), String("lt"), String("gt")};
+const char* Xml::Private::escapeChars = "'\"&<>\n\r";
+String Xml::Private::escapeStrings[7] = {String("apos"), String("quot"), String("amp"), String("lt"), String("gt"), String("#10"), String("#13")};
 
 bool Xml::Private::readToken()
 {
@@ -273,7 +273,7 @@ String Xml::Private::escapeString(const String& str)
   for(const char* i = str, * end = i + str.length(); i < end; ++i)
   {
     c = *i;
-    if((c & 0xc0) || (c & 0xe0) == 0) // c >= 64 || c < 32
+    if((c & 0xc0) || ((c & 0xe0) == 0 && c != '\n' && c != '\r')) // c >= 64 || c < 32, except line breaks
     {
       *(dest++) = c;
       continue;
